@@ -4,6 +4,7 @@
 package main
 
 import (
+	"sync"
 	"bytes"
 	"strings"
 	"time"
@@ -45,17 +46,47 @@ func init() {
 		n := int(a[2].I)
 		cl, sv := memPipe(0, 0)
 		var written bytes.Buffer
+		var wmu sync.Mutex
+		collected := make(chan struct{})
 		// collect everything the server writes
 		go func() {
+			defer close(collected)
 			buf := make([]byte, 4096)
 			for {
 				k, err := cl.Read(buf)
+				wmu.Lock()
 				written.Write(buf[:k])
+				wmu.Unlock()
 				if err != nil {
 					return
 				}
 			}
 		}()
+		// what the server wrote, once it has stopped writing (a loaded machine may run the collector late)
+		settled := func(failed bool) []byte {
+			if failed {
+				sv.Close()
+				select {
+				case <-collected:
+				case <-time.After(time.Second):
+				}
+			}
+			last, stable := -1, 0
+			for i := 0; i < 200 && stable < 3; i++ {
+				time.Sleep(2 * time.Millisecond)
+				wmu.Lock()
+				n := written.Len()
+				wmu.Unlock()
+				if n == last {
+					stable++
+				} else {
+					last, stable = n, 0
+				}
+			}
+			wmu.Lock()
+			defer wmu.Unlock()
+			return append([]byte{}, written.Bytes()...)
+		}
 		type res struct {
 			c   *socketace.ServerConnection
 			err error
@@ -65,26 +96,48 @@ func init() {
 			c, err := socketace.NewServerConnection(sv, mgr, secure)
 			ch <- res{c, err}
 		}()
+		// the server has either finished or consumed everything and is blocked waiting for more (independent of machine load)
+		var r res
+		finished := false
+		quiescent := func() bool {
+			for i := 0; i < 5000; i++ {
+				select {
+				case r = <-ch:
+					finished = true
+					return true
+				default:
+				}
+				if cl.out.idle() {
+					time.Sleep(200 * time.Microsecond)
+					if cl.out.idle() {
+						return true
+					}
+				}
+				time.Sleep(200 * time.Microsecond)
+			}
+			return false
+		}
 		for i := 0; i < n; i++ {
 			cl.Write(a[3+i].B)
-			time.Sleep(300 * time.Microsecond) // let the reader consume this chunk before the next arrives
+			if !finished {
+				quiescent() // the reader consumes this chunk before the next arrives
+			}
 		}
-		var r res
 		state := ""
-		select {
-		case r = <-ch:
-		case <-time.After(60 * time.Millisecond):
+		if !finished {
+			quiescent()
+		}
+		if !finished {
 			// the server is waiting for more input: end of stream
 			cl.out.closeWrite()
 			select {
 			case r = <-ch:
 				state = "eof"
-			case <-time.After(2 * time.Second):
+			case <-time.After(5 * time.Second):
 				state = "hang"
 			}
 		}
-		time.Sleep(2 * time.Millisecond)
-		out := append([]Tok{TW("status")}, statusCodes(written.Bytes())...)
+		out := append([]Tok{TW("status")}, statusCodes(settled(state != "hang" && (r.err != nil || r.c == nil)))...)
 		if state == "hang" {
 			return append(out, TW("result"), TW("hang"))
 		}
